@@ -1,6 +1,6 @@
 SPECIFICATION Spec
 CONSTANTS RootFile = "root.ndjson"  Depth = 4
-INVARIANTS M_Custody M_Count M_Totals M_Backed M_Floor M_Ceiling M_NonNeg
+INVARIANTS M_Custody M_Count M_Totals M_Backed M_Floor M_Ceiling M_NonNeg M_V1Held
 CONSTRAINT DepthBound
 VIEW StView
 CHECK_DEADLOCK FALSE
